@@ -1245,6 +1245,15 @@ Json IoHarness::gen_c07(uint64_t runseed, const std::string &tier) {
 		if (fr.chance(0.15)) rf.push(fault_json("seek", (int64_t)fr.below(1000), "EIO", false, 0));
 	}
 	plan["read_faults"] = rf;
+	{
+		// own stream: plans generated before this fault kind existed keep their other fields
+		Rng af(runseed, "allocfault");
+		if ((reader == "read_fits" || reader == "read_fits_mem" || reader == "ctor") && af.chance(0.3)) {
+			Json a = Json::object();
+			a["at"] = Json((long long)af.below(1 << 20));
+			plan["alloc_fault"] = a;
+		}
+	}
 	Json bat = Json::object();
 	bat["seed"] = Json((long long)(gen.next() >> 20));
 	bat["points"] = Json(thorough ? 40 : 24);
@@ -1286,7 +1295,8 @@ std::string ledger_after_destroy(Env &env, int owner, size_t viol_before) {
 	return "";
 }
 
-bool c07_cxx(C07Case &c, const Bytes &img, const std::string &reader, const std::vector<disk::Fault> &faults, uint64_t *nreads, uint64_t *nseeks) {
+bool c07_cxx(C07Case &c, const Bytes &img, const std::string &reader, const std::vector<disk::Fault> &faults, uint64_t *nreads, uint64_t *nseeks,
+             uint64_t alloc_fail_at = 0, uint64_t *nallocs = nullptr) {
 	Env &env = c.env;
 	RunCtx &ctx = env.ctx;
 	TabBox box(env.L);
@@ -1298,12 +1308,19 @@ bool c07_cxx(C07Case &c, const Bytes &img, const std::string &reader, const std:
 	if (!faults.empty()) { disk::clear_fired(); env.fired_seen.clear(); disk::arm(faults); }
 	ctx.crumb("%s|%s|read", reader.c_str(), c.fk.c_str());
 	bool constructed = true;
+	// allocation fault: the k-th request the table's allocator sees during this read is refused
+	env.L.arm();
+	env.L.fail_at(alloc_fail_at);
+	uint64_t injected0 = env.L.counters().injected_failures;
 	if (reader == "ctor") {
 		try { box.make_from("/sim/in.fits"); ro.ok = true; }
 		catch (std::exception &e) { ro.what = e.what(); constructed = false; }
 		catch (...) { ro.what = "non-std exception"; constructed = false; }
 	} else if (reader == "read_fits_mem") ro = cxx_read_mem(box.make(), img);
 	else ro = cxx_read_disk(box.make(), "/sim/in.fits");
+	env.L.fail_at(0);
+	if (nallocs) *nallocs = env.L.allocs_since_arm();
+	if (env.L.counters().injected_failures != injected0) ctx.count("fault:alloc_fail_in_read");
 	if (nreads) *nreads = disk::op_count(disk::OP_READ);
 	if (nseeks) *nseeks = disk::op_count(disk::OP_SEEK);
 	disk::disarm();
@@ -1612,7 +1629,8 @@ void IoHarness::exec_c07(const Json &plan, Env &env) {
 	}
 	uint64_t nreads = 0, nseeks = 0;
 	std::vector<disk::Fault> none;
-	bool go = c_api ? c07_c(c, img, reader, none, &nreads, &nseeks) : c07_cxx(c, img, reader, none, &nreads, &nseeks);
+	uint64_t nallocs = 0;
+	bool go = c_api ? c07_c(c, img, reader, none, &nreads, &nseeks) : c07_cxx(c, img, reader, none, &nreads, &nseeks, 0, &nallocs);
 	if (!go || ctx.violation) return;
 	// the same read again with I/O faults (disk readers only)
 	const Json &rf = plan["read_faults"];
@@ -1628,8 +1646,16 @@ void IoHarness::exec_c07(const Json &plan, Env &env) {
 		if (!fl.empty()) {
 			c.fk = fl[0].on + "-fault";
 			ctx.log.ev("read again with %zu I/O fault(s): %s:%s@%lld%s", fl.size(), fl[0].on.c_str(), fl[0].err.c_str(), (long long)fl[0].at, fl[0].persistent ? " persistent" : "");
-			if (c_api) c07_c(c, img, reader, fl, nullptr, nullptr); else c07_cxx(c, img, reader, fl, nullptr, nullptr);
+			bool go2 = c_api ? c07_c(c, img, reader, fl, nullptr, nullptr) : c07_cxx(c, img, reader, fl, nullptr, nullptr);
+			if (!go2 || ctx.violation) return;
 		}
+	}
+	// the same read once more with one refused allocation (readers whose table takes the simulated allocator)
+	if (plan.has("alloc_fault") && !c_api && nallocs) {
+		uint64_t k = 1 + (uint64_t)plan["alloc_fault"].geti("at") % nallocs;
+		c.fk = "alloc-fault";
+		ctx.log.ev("read again with allocation %llu of %llu refused", (unsigned long long)k, (unsigned long long)nallocs);
+		c07_cxx(c, img, reader, none, nullptr, nullptr, k, nullptr);
 	}
 }
 
